@@ -78,6 +78,12 @@ Definition tsg_generate (g : tsg) : sheet :=
 
 Definition tsg_run (ps : list pos) (g : tsg) : tsg := fold_left tsg_update ps g.
 
+(** persist/restore steps in a history of a generator ([None]) are no-ops of the model *)
+Definition tsg_step (g : tsg) (o : option pos) : tsg :=
+  match o with Some p => tsg_update g p | None => g end.
+Definition some_of {A} (l : list (option A)) : list A :=
+  flat_map (fun o => match o with Some x => [x] | None => [] end) l.
+
 (* ---- TradingSummaryGenerator ----------------------------------------------------------------------- *)
 
 (** An [IndexMap]: association list in insertion order; a key is found by name (first match) or
@@ -157,6 +163,14 @@ Record summary := mkSummary {
   su_start : Z; su_end : Z;
   su_insts : list (string * sheet);
   su_assets : list (string * agen) }.
+
+(** the same for the summary generator: [None] = persist/restore of every component *)
+Fixpoint sgen_run_p (ops : list (option sop)) (s : sgen) : option sgen :=
+  match ops with
+  | [] => Some s
+  | None :: t => sgen_run_p t s
+  | Some o :: t => match sgen_step s o with Some s' => sgen_run_p t s' | None => None end
+  end.
 
 (** [TradingSummaryGenerator::generate] *)
 Definition sgen_generate (s : sgen) : summary :=
